@@ -1,8 +1,9 @@
-import SLModel.Drv.Util
+import SLModel.Drv.C04
 open Lean
 namespace SL.Drv.C14
 
-/-- stub: no model operations for C14 yet -/
-def handle (_req : Json) : Except String Json := .error "C14: not implemented"
+/-- C14 uses the same model operations as C04 (`SL.Contents.step` with `.compact`,
+`SL.Doc.project`, `ingestOk`, `compactSafe`): `{"op":"run",…}` and `{"op":"project",…}`. -/
+def handle (req : Json) : Except String Json := SL.Drv.C04.handle req
 
 end SL.Drv.C14
